@@ -34,3 +34,40 @@ package proxy
 //@   loop 1 invariant pos < 11 ==> buf[10] == '0' + abs(int(n)) % 10
 //@   loop 1 invariant pos == 11 ==> i == abs(int(n))
 //@   loop 1 decreases pos
+//@
+//@ // ---- request path: ordering of routing, access control, authentication and upstream contact ------
+//@ func field:HTTPProxy.Lookup
+//@   trusted
+//@   assigns nothing
+//@   sets lastLookup = result
+//@
+//@ func scheme
+//@   trusted
+//@   assigns nothing
+//@
+//@ func addHeaders
+//@   trusted
+//@   assigns hdr1, mapsOf(map[string][]string), elems(string)
+//@
+//@ func addResponseHeaders
+//@   trusted
+//@   assigns hdr1, mapsOf(map[string][]string), elems(string)
+//@
+//@ func newWSHandler
+//@   trusted
+//@   assigns nothing
+//@   ensures result != nil
+//@
+//@ func newHTTPProxy
+//@   trusted
+//@   assigns nothing
+//@   ensures result != nil
+//@
+//@ func (*HTTPProxy).ServeHTTP
+//@   props C12
+//@   requires p != nil && w != nil && r != nil && p.Lookup != nil && !accessAdmitted && !authAccepted
+//@   assigns *
+//@   ensures upstreamCalls > old(upstreamCalls) ==> lastLookup != nil && accessTarget == lastLookup && accessAdmitted && authAccepted
+//@   ensures lastLookup == nil ==> upstreamCalls == old(upstreamCalls)
+//@   ensures lastLookup != nil && !accessAdmitted ==> upstreamCalls == old(upstreamCalls) && lastStatus == 403
+//@   ensures lastLookup != nil && accessAdmitted && !authAccepted ==> upstreamCalls == old(upstreamCalls) && lastStatus == 401
